@@ -232,7 +232,11 @@ def resolve_entity(entity):
 
 
 def replace_html_entities(txt):
-    return re.sub(r"&[^;]*;", lambda mo: resolve_entity(mo.group(0)), txt)
+    return re.sub(
+        r"&(?:#[0-9]+|#[xX][0-9a-fA-F]+|[a-zA-Z0-9]+);",
+        lambda mo: resolve_entity(mo.group(0)),
+        txt,
+    )
 
 
 def remove_nowiki_tags(
